@@ -22,9 +22,19 @@ def request(ops) -> str:
     return "|".join(",".join(fmt(f) for f in op) for op in ops)
 
 
+def impl_value(v):
+    """Value written to the implementation for the model's token v: every third token is written as text,
+    so that string tables (one per table) take part in the isolation and save/reopen observations."""
+    if v is None:
+        return None
+    return f"t{v}" if v % 3 == 0 else v
+
+
 def val_token(v):
     if v is None:
         return "-"
+    if isinstance(v, str) and v[:1] == "t" and v[1:].lstrip("-").isdigit():
+        return v[1:]
     if isinstance(v, bool):
         return "B" + str(int(v))
     if isinstance(v, float) and v == int(v):
@@ -99,13 +109,13 @@ class ImplDoc:
                 return "ok"
             t = self._table(op[1])
             if k == "W":
-                t.write(op[2], op[3], op[4])
+                t.write(op[2], op[3], impl_value(op[4]))
                 return "ok"
             if k == "AR":
-                t.add_row(num_rows=op[2], start_row=op[3], default=op[4])
+                t.add_row(num_rows=op[2], start_row=op[3], default=impl_value(op[4]))
                 return "ok"
             if k == "AC":
-                t.add_column(num_cols=op[2], start_col=op[3], default=op[4])
+                t.add_column(num_cols=op[2], start_col=op[3], default=impl_value(op[4]))
                 return "ok"
             if k == "DR":
                 t.delete_row(num_rows=op[2], start_row=op[3])
